@@ -178,7 +178,8 @@ def run(ctx):
                     sites.setdefault(ci, []).append((mod, call))
     for c in mm:
         do, df = classes.resolve_method(c, "describe")
-        ok = isinstance(df, FUNC_TYPES)
+        # (a def, or a method made in the class body -- describe = factory(...) -- whose behaviour the runs of R-ASSERT-IFF see)
+        ok = isinstance(df, FUNC_TYPES) or isinstance(df, (ast.Call, ast.Lambda, ast.Name, ast.Attribute))
         msg = "describe does not resolve"
         if ok and df is base_describe:
             # needs a description through Mismatch.__init__
@@ -200,10 +201,12 @@ def run(ctx):
         ctx.check("R-DESCRIBE-RESOLVES", f"{c.name}.describe -> {do.name if do else None}.describe", c.node, ok, msg,
                   construct=f"{c.module.name}:{c.name}::describe")
         go, gf = classes.resolve_method(c, "get_details")
-        kinds = function_return_kinds(ctx, go.module, gf) if isinstance(gf, FUNC_TYPES) else {"missing"}
-        ok = kinds <= {"Dict", "Attr", "DetailsDelegate"}
+        kinds = function_return_kinds(ctx, go.module, gf) if isinstance(gf, FUNC_TYPES) else {"made"} if isinstance(gf, (ast.Call, ast.Lambda, ast.Name, ast.Attribute)) else {"missing"}
+        # what is certainly not a dict is a violation; a value whose kind this inference cannot name (a local, a parameter) is not
+        wrong = kinds & {"None", "Bool", "Text", "Mismatch", "missing", "Other", "Collection", "Number"}
+        ok = not wrong
         ctx.check("R-DESCRIBE-RESOLVES", f"{c.name}.get_details -> {go.name if go else None}.get_details ({sorted(kinds)})", c.node, ok,
-                  f"get_details of {c.name} can return {sorted(kinds - {'Dict', 'Attr', 'DetailsDelegate'})} instead of a dict",
+                  f"get_details of {c.name} can return {sorted(wrong)} instead of a dict",
                   construct=f"{c.module.name}:{c.name}::get_details")
     ctx.floor("R-DESCRIBE-RESOLVES", 26)
 
